@@ -1,11 +1,12 @@
 #!/bin/bash
 # seedpar.sh <seed id> <check ids...> : run quick checks against a seeded change without touching /repo:
-# a scratch worktree of /repo gets seeded/<id>/patch.diff, a private copy of /verif runs the checks with
+# a scratch worktree of /repo gets seeded/<id>/patch.diff (or, if <seed id> names a file, that patch), a private copy of /verif runs the checks with
 # VERIF_REPO pointing at it; both are removed afterwards.  Several of these can run side by side.
 s=$1; shift
+pf=/verif/seeded/$s/patch.diff; [ -f "$s" ] && { pf=$(readlink -f "$s"); s=$(basename "$s" .diff); }
 wt=$(mktemp -d /tmp/wt-$s-XXXX); vc=$(mktemp -d /tmp/vc-$s-XXXX); rmdir $wt
 git -C /repo worktree add -q --detach $wt HEAD || exit 2
-git -C $wt apply /verif/seeded/$s/patch.diff || { echo "$s: patch does not apply"; git -C /repo worktree remove --force $wt; exit 2; }
+git -C $wt apply $pf || { echo "$s: patch does not apply"; git -C /repo worktree remove --force $wt; exit 2; }
 rsync -a --exclude .git /verif/ $vc/
 cd $vc
 for id in "$@"; do
